@@ -468,6 +468,8 @@ class Interp:
         self.trace = []
         self.special = {}        # qualname -> python callable(interp, args, kwargs)
         self.visited = set()
+        self.policy = None       # None: undecidable comparisons raise; True/False: they evaluate to this value
+        self.undecided_comparisons = 0
 
     # ---- module environments
     def module_env(self, module):
@@ -668,6 +670,10 @@ class Interp:
         d = _A.norm(a.a - b.a)
         s = rat_sign(d, self.positive)
         if s is None:
+            if self.policy is not None:
+                # path splitting: the caller runs the code once per outcome of undecidable comparisons
+                self.undecided_comparisons += 1
+                return self.policy
             raise EvalError(f"cannot decide the sign of {d!r}")
         if s == 0:
             # values equal at the evaluation point: the comparison is decided by the eps-parts' sign if strict
@@ -936,6 +942,9 @@ class Interp:
             if isinstance(a, (list, tuple)):
                 return Arr.from_nested(a)
             return n(a)
+        if fn == "reshape":
+            shp = args[1]
+            return n(args[0]).reshape([self.as_int(x) for x in (shp if isinstance(shp, (tuple, list)) else (shp,))])
         if fn == "hstack":
             out = []
             for p in args[0]:
